@@ -92,8 +92,8 @@ class ServiceMatches(FnCheck):
     prop = 'C16'
     target = f'{LOC}:SdcLocation._service_matches'
     optional_fields = ('scopes',)
-    doc = ('_service_matches never raises: services without scopes do not match; otherwise any() over the scope '
-           'strings of the total _scope_string_matches')
+    doc = ('_service_matches never raises: services without scopes do not match; otherwise it is true exactly when some '
+           'scope string of the service - at any position of the list - matches (_scope_string_matches, total)')
 
     def setup(self, b):
         st = b.st
@@ -104,10 +104,13 @@ class ServiceMatches(FnCheck):
         sc = b.obj('scopes', text=texts)
         none_sc = b.bool('scopes_none')
         svc = b.obj('service', scopes=vany(z3.If(none_sc.e, Val.none, Val.ref(sc.e)), maybe_none=True))
+        self.none_sc = none_sc
+        self.texts = z3.Select(st.get_arr('L'), texts.e)
+        self.M = z3.Function('scope_matches', Val, BoolS)
         return self.me, [svc], {}
 
     def callees(self, ex):
-        M = z3.Function('scope_matches', Val, BoolS)
+        M = self.M
         return {f'{LOC}:SdcLocation._scope_string_matches':
                 Pure(lambda e, st, a, k: vbool(M(st.box(a[0]))), name='_scope_string_matches: total (C16.scope_string_matches_total)')}
 
@@ -116,3 +119,9 @@ class ServiceMatches(FnCheck):
             ex.oblige(st, 'never_raises', z3.BoolVal(False), info={'exc': repr(outcome[1])})
         else:
             ex.oblige(st, 'returns_bool', z3.BoolVal(outcome[1].kind == 'bool'))
+            # a service is inside the location iff SOME of its scopes is a location scope inside it - whichever position
+            # that scope has in the list (devices publish several scopes, foreign ones first or last)
+            j = z3.Int('j!sm')
+            some = z3.Exists([j], z3.And(0 <= j, j < z3.Length(self.texts), self.M(self.texts[j])))
+            ex.oblige(st, 'matches_iff_some_scope_matches',
+                      truthy(outcome[1], st) == z3.And(z3.Not(self.none_sc.e), some))
